@@ -96,7 +96,7 @@ func init() {
 		}
 		var mu sync.Mutex
 		var noops, conflicts, idDrops, failing int64
-		cfg := e1.Config{Alphabet: calls, Depth: depth, Stop: r.TooMany,
+		cfg := e1.Config{ReplayNames: c.ReplayCalls(), Alphabet: calls, Depth: depth, Stop: r.TooMany,
 			Before: func(w *world.World, path []int) interface{} {
 				p := &pre{dump: w.DumpAll(), indexes: map[string]mongokit.IndexConfig{}}
 				if ns := w.Engine.Catalog().Namespaces[lungo.Handle{"d", "c"}]; ns != nil {
